@@ -1,8 +1,17 @@
 //! vharness: calls the real fontc code on seeded inputs and prints one protocol line per case.
 //!   vharness <stream> --seed S --n N [--from I]
+#![allow(dead_code)]
 mod rng;
 mod sexp;
+mod c02;
+mod c03;
 mod c07;
+mod c08;
+mod c13;
+mod c14;
+mod c16;
+mod c17;
+mod e2e;
 
 use std::io::Write;
 
@@ -54,7 +63,17 @@ fn main() {
     }
     let args = parse_args(&argv[1..]);
     match argv[0].as_str() {
+        "c02" => c02::run(&args),
         "c07" => c07::run(&args),
+        "c08" => c08::run(&args),
+        "c08mal" => c08::run_mal(&args),
+        "c16" => c16::run(&args),
+        "c17" => c17::run(&args),
+        "c13lex" => c13::run_lex(&args),
+        "c13inc" => c13::run_inc(&args),
+        "c03e2e" => c03::run("c03e2e", &args),
+        "c04e2e" => c03::run("c04e2e", &args),
+        "c14names" | "c14paths" | "c14emit" => c14::run(argv[0].as_str(), &args),
         other => {
             eprintln!("unknown stream {other}");
             std::process::exit(2);
